@@ -207,7 +207,31 @@ def C11(tier, seed):
         "uriEqualsUri both ways against Equal of the projections and against equality of the real recomposed texts; arguments byte-snapshotted; resolution/normalization outputs must have the parsed structure. non-trivial = the two objects differ by origin; distinct by pair")
     return res
 
-CHECKS = {"C01": C01, "C02": C02, "C03": C03, "C04": C04, "C05": C05, "C06": C06, "C08": C08, "C09": C09, "C11": C11}
+def _simple(pid, tier, seed, model, model_cfg_q, model_cfg_t, model_note, driver, trace, rule, assumptions, level="model_checking", extra_args=(), also=()):
+    res = Result(pid, level)
+    out = rundir(pid)
+    exe = vlib.build("asan")
+    if model:
+        m = vlib.model_check(model, cfg=(model_cfg_t if tier == "thorough" else model_cfg_q), timeout=3000)
+        res.add_model(m, model + " (" + model_note + ")")
+    h = vlib.run_harness(exe, [driver, "--seed", str(seed), "--tier", tier] + list(extra_args), out, driver, timeout=3000 if tier == "thorough" else 900)
+    res.violations += harness_crash_violations(h, pid)
+    res.violations += [v for v in h["violations"] if v.get("prop") == pid]
+    res.add_stats(vlib.merge_stats(h["stats"]))
+    res.violations += validate_stream(res, trace, out, driver, pid, also=also)
+    res.coverage["rule"] = rule
+    res.assumptions = assumptions
+    return res
+
+def C16(tier, seed):
+    return _simple("C16", tier, seed, "MC_Escape", "MC_Escape.cfg", "MC_Escape_t.cfg",
+        "escape transducer per transition (<=3/<=6 characters, alphabet) and on all strings up to the bound; round trip Unescape(Escape(s)) = s / NormBreaks(s); in-place unescape machine with explicit cursors: w <= r, no write past the old terminator, result = function view",
+        "escape", "Trace_Escape",
+        "all strings up to length 3 (thorough 4) over 16 class representatives, every code point 1..255 alone and in 8 contexts (after CR, before LF, after '%', inside and after a triplet), malformed/truncated '%' sequences, random strings up to 60; "
+        "escape x both flags x explicit-range/NUL-terminated, unescape x plus-to-space x 4 break modes, both widths; output buffers of exactly 3n+1 / 6n+1 / n+1 characters ending at a PROT_NONE page. non-trivial = non-empty input; distinct by input text",
+        ["TLC/SANY, CommunityModules", "spec/UriEscape.tla", "guard pages make an out-of-bounds write an event"])
+
+CHECKS = {"C16": C16, "C01": C01, "C02": C02, "C03": C03, "C04": C04, "C05": C05, "C06": C06, "C08": C08, "C09": C09, "C11": C11}
 
 # ------------------------------------------------------------------ known findings triage, replay
 def triage(pid, violations, kf):
